@@ -38,6 +38,7 @@ struct Trace {                       // lives in MAP_SHARED memory; written by t
     uint32_t verbose;
     uint32_t maxpts;
     char sig[SIGMAX];
+    char tag[32];                    // history marker set by the runtime (pmc_tag): prefixed to the signature of whatever ends this execution
     char detail[DETMAX];
     char obs[OBSMAX];
     Pt pts[1];                       // maxpts entries (prefix in [0,prefix_len), then recorded)
@@ -158,10 +159,12 @@ void pmc_log(const char* fmt, ...) {
     va_list ap; va_start(ap, fmt); vfprintf(stderr, fmt, ap); va_end(ap); fputc('\n', stderr);
 }
 
+void pmc_tag(const char* tag) { if (in_child && T) snprintf(T->tag, sizeof T->tag, "%s", tag ? tag : ""); }
+
 void pmc_violation(const char* sig, const char* fmt, ...) {
     if (!in_child) { fprintf(stderr, "pmc_violation outside child: %s\n", sig); abort(); }
     if (T->status == ST_RUNNING) {
-        snprintf(T->sig, SIGMAX, "%s", sig);
+        snprintf(T->sig, SIGMAX, "%s%s", T->tag, sig);
         va_list ap; va_start(ap, fmt); vsnprintf(T->detail, DETMAX, fmt, ap); va_end(ap);
         T->status = ST_VIOLATION;
         if (T->verbose) fprintf(stderr, "VIOLATION-IN-EXECUTION sig=%s detail=%s\n", T->sig, T->detail);
@@ -287,7 +290,7 @@ void runner_main(Trace* t, int cmd_r, int done_w, bool passthrough) {
 
 Outcome run_child1(Trace* t, const std::vector<Pt>& prefix, bool verbose, bool passthrough, bool fresh) {
     if (fresh || !g_reuse || g_runner.jobs >= g_recycle) kill_runner();
-    t->status = ST_RUNNING; t->npts = 0; t->obslen = 0; t->obs[0] = 0; t->sig[0] = 0; t->detail[0] = 0;
+    t->status = ST_RUNNING; t->npts = 0; t->obslen = 0; t->obs[0] = 0; t->sig[0] = 0; t->detail[0] = 0; t->tag[0] = 0;
     t->prefix_len = prefix.size(); t->verbose = verbose; t->maxpts = g_maxpts;
     if (prefix.size() > g_maxpts) { fprintf(stderr, "prefix too long\n"); exit(2); }
     if (!prefix.empty()) memcpy(t->pts, prefix.data(), prefix.size() * sizeof(Pt));
@@ -333,6 +336,7 @@ Outcome run_child1(Trace* t, const std::vector<Pt>& prefix, bool verbose, bool p
         if (o.signo == SIGKILL) o.signo = SIGALRM;      // our own timeout kill
         std::string log = passthrough ? std::string("(see output above)") : read_file_head(g_logpath);
         classify_crash(o, log);
+        if (t->tag[0]) o.sig = std::string(t->tag) + o.sig;
     } else {
         o.sig = t->sig; o.detail = t->detail;
     }
